@@ -40,6 +40,7 @@ def thresholds(tier):
        "multiport_configs": 50, "rtl_configs": 30, "cl_configs": 30, "backpressure_configs": 30, "metamorphic_pairs": 8, "configs_with_ports_of_different_data_width": 20, "cl_memory_with_rtl_masters_configs": 30, "image_api_calls": 1000, "fl_configs": 20}
   if tier == "thorough":
     t = {k: v * 20 for k, v in t.items()}
+    t["image_api_calls"] = 3000           # a fixed number of calls per shard
   return t
 
 
